@@ -899,6 +899,10 @@ def load_concepts(repo):
             for k, v in list(vars(m).items()):
                 if v is _io:
                     setattr(m, k, IO_SHIM)
+                elif v is _re:
+                    setattr(m, k, RE_SHIM)
+                elif isinstance(v, _re.Pattern):
+                    setattr(m, k, SymPattern(v.pattern, v.flags))
                 elif v is _io.StringIO:
                     setattr(m, k, SymStringIO)
     concepts.__symx_symstr__ = True
@@ -920,3 +924,234 @@ def eval_str(mdl, s):
         else:
             out.append(chr(mdl.eval(c, model_completion=True).as_long()))
     return ''.join(out)
+
+
+# -- regular expressions on symbolic strings ------------------------------------------------------------------
+# A regular expression distinguishes characters only through the single-character predicates that occur in it
+# (literals, ranges, categories, '.').  Every symbolic character is decided against those predicates (solver
+# decisions), replaced by a concrete representative with the same outcomes, and the REAL ``re`` engine runs on the
+# representative string.  Match positions are exact; groups are returned as slices of the ORIGINAL symbolic string.
+
+import re as _re
+
+_DIGITS = [c for c in range(0x110000) if chr(c).isdecimal()]
+_WORD = [c for c in range(0x110000) if chr(c).isalnum() or c == 95]
+_CANDIDATES = list(range(0x20, 0x7f)) + list(range(0, 0x20)) + [0x7f] + list(range(0x80, 0x250)) + \
+    [0x660, 0x1680, 0x2003, 0x2028, 0x3000, 0x4e00, 0xe000, 0x1f600]
+
+
+def _predicates(pattern, flags):
+    try:
+        from re import _parser as sp, _constants as sc
+    except ImportError:      # pragma: no cover
+        import sre_parse as sp, sre_constants as sc
+    if flags & (_re.IGNORECASE | _re.ASCII | _re.LOCALE):
+        raise core.Inconclusive('unsupported: regular expression flags on a symbolic string')
+    preds = {('lit', 10)}        # anchors look at line ends; \b adds the word category below
+
+    def cat(code):
+        name = str(code)
+        for k in ('DIGIT', 'SPACE', 'WORD', 'LINEBREAK'):
+            if k in name:
+                return ('cat', k.lower())
+        raise core.Inconclusive(f'unsupported: regular expression category {name}')
+
+    def walk(items):
+        for op, av in items:
+            op_name = str(op)
+            if op_name in ('LITERAL', 'NOT_LITERAL'):
+                preds.add(('lit', av))
+            elif op_name == 'ANY':
+                preds.add(('lit', 10))
+            elif op_name == 'IN':
+                for o2, a2 in av:
+                    n2 = str(o2)
+                    if n2 == 'LITERAL':
+                        preds.add(('lit', a2))
+                    elif n2 == 'RANGE':
+                        preds.add(('range', a2))
+                    elif n2 == 'CATEGORY':
+                        preds.add(cat(a2))
+                    elif n2 != 'NEGATE':
+                        raise core.Inconclusive(f'unsupported: regular expression set item {n2}')
+            elif op_name == 'CATEGORY':
+                preds.add(cat(av))
+            elif op_name in ('MAX_REPEAT', 'MIN_REPEAT', 'POSSESSIVE_REPEAT'):
+                walk(av[2])
+            elif op_name == 'SUBPATTERN':
+                if av[1] or av[2]:
+                    raise core.Inconclusive('unsupported: inline regular expression flags')
+                walk(av[3])
+            elif op_name == 'BRANCH':
+                for alt in av[1]:
+                    walk(alt)
+            elif op_name in ('ASSERT', 'ASSERT_NOT'):
+                walk(av[1])
+            elif op_name == 'ATOMIC_GROUP':
+                walk(av)
+            elif op_name == 'AT':
+                if 'BOUNDARY' in str(av):
+                    preds.add(('cat', 'word'))
+            elif op_name == 'GROUPREF':
+                raise core.Inconclusive('unsupported: back-reference on a symbolic string')
+            else:
+                raise core.Inconclusive(f'unsupported: regular expression node {op_name}')
+    walk(sp.parse(pattern, flags))
+    return sorted(preds, key=repr)
+
+
+def _holds(pred, c):
+    """pred on a code point (int -> bool) or on a symbolic character (-> z3 Bool)"""
+    kind, a = pred
+    conc = isinstance(c, int)
+    if kind == 'lit':
+        return c == a
+    if kind == 'range':
+        return (a[0] <= c <= a[1]) if conc else z3.And(z3.UGE(c, a[0]), z3.ULE(c, a[1]))
+    codes = {'space': SPACES, 'digit': _DIGITS, 'word': _WORD, 'linebreak': [10]}[a]
+    if conc:
+        return c in _SETS.setdefault(a, set(codes))
+    return in_set(c, codes)
+
+
+_SETS = {}
+
+
+def _representative(s, preds):
+    out = []
+    for c in chars(s):
+        if isinstance(c, str):
+            out.append(c)
+            continue
+        outcome = [decide(_holds(p, c)) for p in preds]
+        for cand in _CANDIDATES:
+            if [bool(_holds(p, cand)) for p in preds] == outcome:
+                out.append(chr(cand))
+                break
+        else:
+            raise core.Inconclusive('no representative character for a class of a regular expression')
+    return ''.join(out)
+
+
+class SymMatch:
+    def __init__(self, m, original):
+        self._m, self._s = m, original
+        self.re, self.pos, self.endpos, self.lastindex = m.re, m.pos, m.endpos, m.lastindex
+
+    def __bool__(self):
+        return True
+
+    def start(self, g=0): return self._m.start(g)
+    def end(self, g=0): return self._m.end(g)
+    def span(self, g=0): return self._m.span(g)
+
+    def group(self, *gs):
+        def one(g):
+            a, b = self._m.span(g)
+            return None if a < 0 else self._s[a:b]
+        if not gs:
+            return one(0)
+        return one(gs[0]) if len(gs) == 1 else tuple(one(g) for g in gs)
+
+    __getitem__ = group
+
+    def groups(self, default=None):
+        return tuple((self.group(k) if self._m.span(k)[0] >= 0 else default) for k in range(1, self._m.re.groups + 1))
+
+    def groupdict(self, default=None):
+        return {k: (self.group(k) if self._m.span(k)[0] >= 0 else default) for k in self._m.re.groupindex}
+
+    @property
+    def string(self):
+        return self._s
+
+
+class SymPattern:
+    def __init__(self, pattern, flags=0):
+        self._p = _re.compile(pattern, flags)
+        self.pattern, self.flags, self.groups, self.groupindex = self._p.pattern, self._p.flags, self._p.groups, self._p.groupindex
+        self._preds = None
+
+    def _rep(self, s):
+        if self._preds is None:
+            self._preds = _predicates(self._p.pattern, self._p.flags & ~_re.UNICODE)
+        return _representative(s, self._preds)
+
+    def _one(self, name, s, *a):
+        if not isinstance(s, SymStr):
+            return getattr(self._p, name)(s, *a)
+        m = getattr(self._p, name)(self._rep(s), *a)
+        return None if m is None else SymMatch(m, s)
+
+    def match(self, s, *a): return self._one('match', s, *a)
+    def fullmatch(self, s, *a): return self._one('fullmatch', s, *a)
+    def search(self, s, *a): return self._one('search', s, *a)
+
+    def finditer(self, s, *a):
+        if not isinstance(s, SymStr):
+            return self._p.finditer(s, *a)
+        return iter([SymMatch(m, s) for m in self._p.finditer(self._rep(s), *a)])
+
+    def findall(self, s, *a):
+        if not isinstance(s, SymStr):
+            return self._p.findall(s, *a)
+        out = []
+        for m in self.finditer(s, *a):
+            out.append(m.group(0) if self.groups == 0 else m.group(1) if self.groups == 1 else m.groups(''))
+        return out
+
+    def split(self, s, maxsplit=0):
+        if not isinstance(s, SymStr):
+            return self._p.split(s, maxsplit)
+        out, pos = [], 0
+        for k, m in enumerate(self.finditer(s)):
+            if maxsplit and k >= maxsplit:
+                break
+            out.append(s[pos:m.start()])
+            out.extend(m.groups())
+            pos = m.end()
+        out.append(s[pos:])
+        return out
+
+    def sub(self, repl, s, count=0):
+        if not isinstance(s, SymStr):
+            return self._p.sub(repl, s, count)
+        if callable(repl) or '\\' in repl:
+            raise core.Inconclusive('unsupported: re.sub with a template/callable on a symbolic string')
+        out, pos = [], 0
+        for k, m in enumerate(self.finditer(s)):
+            if count and k >= count:
+                break
+            out += [s[pos:m.start()], repl]
+            pos = m.end()
+        out.append(s[pos:])
+        return concat(out)
+
+
+def _via(name):
+    def f(self, pattern, string, *a, flags=0, **k):
+        p = pattern if isinstance(pattern, SymPattern) else SymPattern(pattern, flags)
+        return getattr(p, name)(string, *a, **k)
+    return f
+
+
+class _ReShim:
+    match = _via('match')
+    fullmatch = _via('fullmatch')
+    search = _via('search')
+    finditer = _via('finditer')
+    findall = _via('findall')
+    split = _via('split')
+
+    def compile(self, pattern, flags=0):
+        return pattern if isinstance(pattern, SymPattern) else SymPattern(pattern, flags)
+
+    def sub(self, pattern, repl, string, count=0, flags=0):
+        p = pattern if isinstance(pattern, SymPattern) else SymPattern(pattern, flags)
+        return p.sub(repl, string, count)
+
+    def __getattr__(self, name):
+        return getattr(_re, name)
+
+
+RE_SHIM = _ReShim()
